@@ -82,7 +82,12 @@ Definition cm_decode (t : list N) (bs : list N) : outcome (list N) (nat * nat) :
 
 Inductive cm_mode := CmTrie | CmDict.
 
-Definition indexed (t : list N) : list (nat * N) := combine (seq 0 (length t)) t.
+Fixpoint indexed_from (k : nat) (t : list N) : list (nat * N) :=
+  match t with
+  | [] => []
+  | x :: r => (k, x) :: indexed_from (S k) r
+  end.
+Definition indexed (t : list N) : list (nat * N) := indexed_from 0 t.
 
 Definition distinct_count (l : list N) : nat := length (nodup N.eq_dec l).
 
